@@ -878,6 +878,11 @@ class KInterp:
     def _subscript(self, e, st):
         base_node = e.value
         sl = e.slice
+        if isinstance(sl, ast.Tuple) and any((isinstance(x_, ast.Constant) and x_.value is None) or U(x_) in ("np.newaxis", "numpy.newaxis")
+                                             for x_ in sl.elts) and all(
+                (isinstance(x_, ast.Slice) and x_.lower is None and x_.upper is None) or (isinstance(x_, ast.Constant) and x_.value is None)
+                or U(x_) in ("np.newaxis", "numpy.newaxis") for x_ in sl.elts):
+            return self.eval(base_node, st)        # x[:, None]: broadcasting helper, same elements
         # pit[row, COL]
         if isinstance(sl, ast.Tuple) and len(sl.elts) == 2:
             colr = self._resolve_col(sl.elts[1], st)
@@ -1021,6 +1026,10 @@ class KInterp:
                                      any(a[1] == "lookup" for a in x.plain().atoms())) for x in (lo, hi)):
                     return base      # rows of one component: the own-row index is the element index
             raise Unsupported("slice %s" % U(e))
+        if isinstance(sl, ast.Tuple) and all((isinstance(x_, ast.Slice) and x_.lower is None and x_.upper is None)
+                                            or (isinstance(x_, ast.Constant) and x_.value is None)
+                                            or U(x_) in ("np.newaxis", "numpy.newaxis") for x_ in sl.elts):
+            return base
         idx = self.eval(sl, st)
         if isinstance(idx, BExpr):
             if st.get("mask") is not None and idx.key() == st["mask"].key():
@@ -1133,6 +1142,19 @@ class KInterp:
         kw = {k.arg: k.value for k in e.keywords}
         if f == "hasattr":
             return PyVal(self.consts.get("hasattr:" + U(e.args[1]), True))
+        if f in ("isinstance", "np.iterable", "numpy.iterable") and e.args:
+            key = ("isinstance:" if f == "isinstance" else "iterable:") + U(e.args[0])
+            if key in self.consts:
+                return PyVal(bool(self.consts[key]))
+            raise Unsupported("%s(%s, ...) needs a configured answer" % (f, U(e.args[0])))
+        if f in ("sum", "np.sum", "numpy.sum") and e.args and not (isinstance(e.args[0], ast.Name) and False):
+            v_ = self.eval(e.args[0], st)
+            if isinstance(v_, (GExpr, MaskedView)):
+                return self._as_num(v_).map1(lambda p_: apply_fn("SUM", [p_]))
+        if f == "any" and len(e.args) == 1:
+            v_ = self.eval(e.args[0], st)
+            if isinstance(v_, BExpr):
+                return AnyOf(v_, "any")
         if isinstance(e.func, ast.Attribute) and not e.args and not e.keywords:
             try:
                 recv = self.eval(e.func.value, st) if isinstance(e.func.value, (ast.Name, ast.Call)) and \
